@@ -1,7 +1,914 @@
-//! C08 — TODO
-use mc_core::Ctx;
+//! C08 — the signing lottery is exact, deterministic and monotone in stake.
+//!
+//! Seam 1 (included source): `is_lottery_won(phi_f, ev, stake, total)` compiled from the working
+//! tree's `mithril-stm/src/proof_system/concatenation/eligibility.rs` (see main.rs for the shim).
+//! Seam 2 (public path): `Signer::create_single_signature` against `SingleSignature::verify`, one
+//! index at a time, with the draw recomputed by `mc_ref::dense_mapping`.
+//!
+//! Space: a lattice of (phi_f, total, stake) and, for every (phi_f, total), ONE common set of draws
+//! (extremes, a uniform grid, and for every stake of that total the points T ± j·2^s around the
+//! exact threshold T bracketed by the reference). Every stake of the total is evaluated on every
+//! draw of the set, so the decision matrix (stake × draw) carries the stake-ascending and
+//! draw-descending chains of the property.
+//!
+//! Oracle: `mc_ref::lottery` (interval arithmetic, proven brackets) outside the band 2^-44; the
+//! monotonicity clauses are evaluated on the implementation's own decisions.
 
-pub fn run(_ctx: &Ctx) -> ! {
-    eprintln!("C08: not implemented");
-    std::process::exit(2)
+use crate::eligibility::is_lottery_won;
+use mc_core::{Ctx, Report, catch, par_map};
+use mc_ref::lottery::{self as lot, Iv, Verdict};
+use mithril_stm::{
+    AggregateVerificationKey, Initializer, KeyRegistration, MithrilMembershipDigest, Parameters, RegistrationEntry, Signer,
+};
+use num_bigint::{BigInt, BigUint};
+use num_traits::{One, ToPrimitive, Zero};
+use rand_chacha::ChaCha20Rng;
+use rand_core::SeedableRng;
+use serde_json::{Value, json};
+
+type D = MithrilMembershipDigest;
+
+/// Half-width of the "numerically negligible band" around equality, as |draw/2^512 − threshold|:
+/// 2^-44 for a party holding the whole stake; see [`band_log2`] for smaller stakes.
+const BAND_LOG2: i32 = -44;
+
+/// The band for one (stake, total, phi_f): 2^-44 · min(1, 2·max(w, x)) rounded UP to a power of two,
+/// w = stake/total, x = −w·ln(1−phi_f). Never wider than 2^-44.
+///
+/// Why this is still ≥ 256 × the error the implementation's design permits: it computes
+/// c = fl(ln(fl(1−phi_f))) in f64 and is exact afterwards (x = w·c and q = 2^512/(2^512−ev) are exact
+/// rationals). |fl(1−phi_f) − (1−phi_f)| ≤ 2^-54 (0 for phi_f ≥ 1/2) and fl(1−phi_f) ≥ 1/2 whenever
+/// it is inexact, ln is accurate to 1 ulp, so |c − ln(1−phi_f)| ≤ 2^-53 + |c|·2^-52 and
+/// |Δthreshold| = e^-x·|Δx| ≤ w·2^-53 + x·e^-x·2^-52 ≤ 2^-52·(w/2 + min(x, 1/e)).
+fn band_log2(stake: u64, total: u64, x: f64) -> i32 {
+    let w = stake as f64 / total as f64;
+    let scale = (2.0 * w.max(x) * (1.0 + 1e-9)).min(1.0);
+    if scale <= 0.0 {
+        return BAND_LOG2;
+    }
+    (BAND_LOG2 + scale.log2().ceil() as i32).clamp(-400, BAND_LOG2)
+}
+
+/// x0 = 2.65567469476558…: the positive root of e^x = 1 + x + 3x²/2. For x above it the first
+/// early-exit "error term" 3·x²/2! is smaller than the true Taylor remainder e^x − 1 − x.
+/// Used ONLY to name the classifier key of an exactness violation, never to decide one.
+const X0_FIRST_ERROR_TERM_VALID: f64 = 2.6556746947;
+
+const K_TAYLOR: &str = "C08/taylor-error-bound-invalid-for-large-x";
+const K_NEAR_ONE: &str = "C08/phi-within-epsilon-of-one-treated-as-one";
+const K_LOST_WON: &str = "C08/lost-although-exactly-won";
+const K_WON_LOST: &str = "C08/won-although-exactly-lost";
+const K_ZERO: &str = "C08/zero-stake-wins";
+const K_ONE: &str = "C08/phi-one-loses";
+const K_NONDET: &str = "C08/nondeterministic-decision";
+const K_MONO_STAKE: &str = "C08/stake-growth-flips-won-to-lost";
+const K_MONO_DRAW: &str = "C08/smaller-draw-flips-won-to-lost";
+const K_AGREE: &str = "C08/signer-verifier-disagree";
+const K_PUBLIC_DRAW: &str = "C08/public-path-differs-from-eligibility-on-reference-draw";
+
+// ---------------------------------------------------------------------------------------------
+// the lattice
+// ---------------------------------------------------------------------------------------------
+
+fn phi_next_to_one() -> f64 {
+    1.0 - f64::EPSILON / 2.0 // 1 − 2^-53, the f64 just below 1
+}
+
+fn phis(thorough: bool) -> Vec<f64> {
+    let mut v = vec![
+        f64::EPSILON, // 2^-52
+        1e-6,
+        0.05,
+        0.2,
+        0.5,
+        0.8,
+        0.92,
+        0.9297, // x = 2.65498 at full stake: just below x0
+        0.9298, // x = 2.65641 at full stake: just above x0
+        0.95,
+        0.99,
+        1.0 - f64::EPSILON, // 1 − 2^-52
+        phi_next_to_one(),
+        1.0,
+    ];
+    if thorough {
+        // 0.92974 / 0.92975: x = 2.655553 / 2.655695 at full stake, the closest pair around x0 = 2.6556747
+        v.extend_from_slice(&[f64::MIN_POSITIVE, 1e-12, 0.01, 0.1, 0.35, 0.65, 0.9, 0.925, 0.92974, 0.92975, 0.93, 0.97, 0.999, 0.999999]);
+    }
+    v
+}
+
+fn stakes_for(total: u64, dense_max: u64) -> Vec<u64> {
+    if total <= dense_max {
+        (0..=total).collect()
+    } else {
+        let mut v = vec![0, 1, total / 3, total / 2, total - 1, total];
+        v.sort();
+        v.dedup();
+        v
+    }
+}
+
+fn totals(dense_max: u64) -> Vec<u64> {
+    let mut v: Vec<u64> = (1..=dense_max).collect();
+    v.extend_from_slice(&[1000, 45_000_000_000_000_000, u64::MAX]);
+    v
+}
+
+struct Bounds {
+    dense_max: u64,
+    /// threshold offsets j·2^s, s absolute (bit position in the 512-bit draw)
+    shifts: Vec<u32>,
+    /// threshold offsets j·2^s, s relative to the band edge of the row (0 = exactly the band width)
+    rel_shifts: Vec<i32>,
+    jmax: u32,
+    grid: u32,
+}
+
+fn bounds(ctx: &Ctx) -> Bounds {
+    ctx.tier.pick(
+        Bounds { dense_max: 10, shifts: vec![0, 128, 384, 460, 467, 469, 472, 480, 490, 500, 506],
+            rel_shifts: vec![-1, 0, 1, 3, 8, 16],
+            jmax: 2,
+            grid: 64,
+        },
+        Bounds {
+            dense_max: 12,
+            shifts: vec![
+                0, 32, 64, 128, 192, 256, 320, 384, 448, 460, 466, 467, 468, 469, 470, 472, 476, 480, 484, 488, 490, 492, 496, 500,
+                504, 506, 508,
+            ],
+            rel_shifts: vec![-8, -2, -1, 0, 1, 2, 3, 4, 6, 8, 12, 16, 20, 24],
+            jmax: 3,
+            grid: 256,
+        },
+    )
+}
+
+// ---------------------------------------------------------------------------------------------
+// reference side
+// ---------------------------------------------------------------------------------------------
+
+fn iv_to_f64(x: &BigInt) -> f64 {
+    let y: BigInt = x >> (lot::P - 60);
+    y.to_i128().map(|v| v as f64 / (1u64 << 60) as f64).unwrap_or(f64::INFINITY)
+}
+
+/// lower bound of x = −(stake/total)·ln(1−phi) (exact reference arithmetic, for classification)
+fn exponent_lower(stake: u64, total: u64, phi: f64, ln2c: &Iv) -> f64 {
+    let (a, s) = lot::dyadic(phi);
+    let den = BigUint::one() << s;
+    if a >= den {
+        return f64::INFINITY;
+    }
+    if stake == 0 {
+        return 0.0;
+    }
+    let ln1m = lot::ln_ratio(&(&den - &a), &den, ln2c); // ≤ 0
+    let m = ln1m.mul_ratio(&BigInt::from(stake), &BigInt::from(total));
+    // smallest magnitude
+    let mag = m.lo.magnitude().min(m.hi.magnitude()).clone();
+    iv_to_f64(&BigInt::from(mag))
+}
+
+struct Row {
+    stake: u64,
+    /// bracket of 1 − (1−phi)^(stake/total); None for the contradictory case phi = 1, stake = 0
+    p: Option<Iv>,
+    x_lo: f64,
+    band_log2: i32,
+}
+
+struct Cell {
+    phi: f64,
+    total: u64,
+    rows: Vec<Row>,
+    /// ascending, distinct
+    draws: Vec<BigUint>,
+}
+
+fn build_cell(phi: f64, total: u64, stakes: &[u64], extra_draws: &[BigUint], b: &Bounds, ln2c: &Iv) -> Cell {
+    let max = (BigUint::one() << 512u32) - BigUint::one();
+    let mut draws: Vec<BigUint> = vec![BigUint::zero(), BigUint::one(), max.clone()];
+    // uniform grid: midpoints of `grid` equal slices of [0, 2^512)
+    let g_log = b.grid.trailing_zeros();
+    assert!(b.grid.is_power_of_two());
+    for k in 0..b.grid {
+        draws.push((BigUint::from(2 * k + 1)) << (512 - g_log - 1));
+    }
+    let mut rows = vec![];
+    for &stake in stakes {
+        let p = lot::probability(stake, total, phi, ln2c);
+        let x_lo = exponent_lower(stake, total, phi, ln2c);
+        let band = if x_lo.is_finite() { band_log2(stake, total, x_lo) } else { BAND_LOG2 };
+        if let Some((lo, hi)) = lot::threshold_512(stake, total, phi, ln2c) {
+            draws.push(lo.clone().min(max.clone()));
+            draws.push(hi.clone().min(max.clone()));
+            let rel = b.rel_shifts.iter().map(|r| (512 + band + r).clamp(0, 511) as u32);
+            for s in b.shifts.iter().copied().chain(rel) {
+                for j in 1..=b.jmax {
+                    let off = BigUint::from(j) << s;
+                    if lo >= off {
+                        draws.push(&lo - &off);
+                    }
+                    let up = &hi + &off;
+                    if up <= max {
+                        draws.push(up);
+                    }
+                }
+            }
+        }
+        rows.push(Row { stake, p, x_lo, band_log2: band });
+    }
+    draws.extend(extra_draws.iter().cloned());
+    draws.sort();
+    draws.dedup();
+    Cell { phi, total, rows, draws }
+}
+
+// ---------------------------------------------------------------------------------------------
+// implementation side
+// ---------------------------------------------------------------------------------------------
+
+const LOST: u8 = 0;
+const WON: u8 = 1;
+const PANIC: u8 = 2;
+const NONDET: u8 = 0x80;
+
+fn call(phi: f64, ev: [u8; 64], stake: u64, total: u64) -> u8 {
+    match catch(|| is_lottery_won(phi, ev, stake, total)) {
+        Ok(true) => WON,
+        Ok(false) => LOST,
+        Err(_) => PANIC,
+    }
+}
+
+/// decisions of the real code for one stake over all draws of the cell; every 4th draw is decided
+/// twice (determinism)
+fn run_row(cell: &Cell, r: usize) -> Vec<u8> {
+    let row = &cell.rows[r];
+    cell.draws
+        .iter()
+        .enumerate()
+        .map(|(i, d)| {
+            let ev = lot::ev_from_biguint(d);
+            let a = call(cell.phi, ev, row.stake, cell.total);
+            if i % 4 == 0 && call(cell.phi, ev, row.stake, cell.total) != a { a | NONDET } else { a }
+        })
+        .collect()
+}
+
+fn is_won(d: u8) -> bool {
+    d & 0x7f == WON
+}
+
+fn hex_be(d: &BigUint) -> String {
+    format!("{:0>128}", d.to_str_radix(16))
+}
+
+fn case_json(cell: &Cell, r: usize, d: usize) -> Value {
+    json!({
+        "kind": "included",
+        "phi_f": cell.phi,
+        "phi_f_bits": format!("{:#018x}", cell.phi.to_bits()),
+        "total": cell.total.to_string(),
+        "stake": cell.rows[r].stake.to_string(),
+        "draw_hex_be": hex_be(&cell.draws[d]),
+        "draw_over_2^512": draw_f64(&cell.draws[d]),
+    })
+}
+
+fn draw_f64(d: &BigUint) -> f64 {
+    let top: BigUint = d >> (512u32 - 64);
+    top.to_u64().unwrap_or(u64::MAX) as f64 / 18446744073709551616.0
+}
+
+/// distance class of a draw from the threshold bracket, as floor(log2 |draw − T|) − 512 (None inside the bracket)
+fn dist_log2(p: &Iv, d: &BigUint) -> Option<i64> {
+    let ev = BigInt::from(d.clone()) << (lot::P - 512);
+    let dist = if ev < p.lo {
+        &p.lo - &ev
+    } else if ev > p.hi {
+        &ev - &p.hi
+    } else {
+        return None;
+    };
+    Some(dist.bits() as i64 - 1 - lot::P as i64)
+}
+
+/// per (phi_f, stake, total) tallies, used for the summary extras of the evidence
+struct RowStat {
+    phi: f64,
+    x_lo: f64,
+    decisive: u64,
+    wrong_lost: u64,
+    wrong_won: u64,
+}
+
+#[derive(Default)]
+struct Stats {
+    rows: Vec<RowStat>,
+    /// draws inside the band (but outside the reference bracket) that the implementation decides
+    /// against the exact sign — allowed by the property, reported to show how much of the band is used
+    inband_disagreements: u64,
+    /// largest log2(|draw/2^512 − T| / band) among those
+    inband_max_rel: Option<i64>,
+}
+
+fn judge_cell(cell: &Cell, dec: &[Vec<u8>]) -> (Report, Stats) {
+    let mut rep = Report::new("exploration", "");
+    let mut stats = Stats::default();
+    let phi = cell.phi;
+    // restated from the property: "phi_f is 1" means the f64 1.0 and nothing else
+    let phi_is_one = phi == 1.0;
+    let next_to_one = !phi_is_one && (1.0 - phi) < f64::EPSILON;
+    let nd = cell.draws.len();
+    let evs: Vec<[u8; 64]> = cell.draws.iter().map(lot::ev_from_biguint).collect();
+    // reference verdicts
+    let ver: Vec<Vec<Option<Verdict>>> = cell
+        .rows
+        .iter()
+        .map(|row| evs.iter().map(|ev| row.p.as_ref().map(|p| lot::decide_p(ev, p, row.band_log2))).collect())
+        .collect();
+
+    for (r, row) in cell.rows.iter().enumerate() {
+        let mut sample_w: Option<usize> = None;
+        let mut sample_l: Option<usize> = None;
+        let mut st = RowStat { phi, x_lo: row.x_lo, decisive: 0, wrong_lost: 0, wrong_won: 0 };
+        let (mut n_close, mut n_won, mut n_lost, mut n_near) = (0u64, 0u64, 0u64, 0u64);
+        rep.add_extra("decided_twice", nd.div_ceil(4) as u64);
+        for d in 0..nd {
+            rep.eval();
+            let raw = dec[r][d];
+            if raw & NONDET != 0 {
+                rep.violation(
+                    K_NONDET,
+                    format!("two calls of is_lottery_won with the same arguments returned different results: {}", case_json(cell, r, d)),
+                    case_json(cell, r, d),
+                );
+            }
+            let code = raw & 0x7f;
+            let won = code == WON;
+            match code {
+                WON => rep.outcome("won"),
+                LOST => rep.outcome("lost"),
+                _ => {
+                    rep.outcome("panic(counted as lost)");
+                    rep.add_extra("panics_observed", 1);
+                }
+            }
+            // --- always lost for zero stake / always won when phi_f is 1
+            if row.stake == 0 && phi_is_one {
+                rep.add_extra("excluded_contradictory_phi1_stake0", 1);
+                continue;
+            }
+            if row.stake == 0 {
+                rep.nontrivial(&("zero", phi.to_bits(), cell.total, &evs[d][..]));
+                if won {
+                    let key = if next_to_one { K_NEAR_ONE } else { K_ZERO };
+                    rep.violation(
+                        key,
+                        format!(
+                            "zero stake wins the lottery: is_lottery_won(phi_f={phi:e}, draw, stake=0, total={}) = true for {}",
+                            cell.total,
+                            case_json(cell, r, d)
+                        ),
+                        case_json(cell, r, d),
+                    );
+                }
+                continue;
+            }
+            if phi_is_one {
+                rep.nontrivial(&("one", row.stake, cell.total, &evs[d][..]));
+                if !won {
+                    rep.violation(
+                        K_ONE,
+                        format!("phi_f = 1 but the lottery is lost for {}", case_json(cell, r, d)),
+                        case_json(cell, r, d),
+                    );
+                }
+                continue;
+            }
+            // --- exactness outside the band
+            match ver[r][d] {
+                Some(Verdict::TooClose) | None => {
+                    n_close += 1;
+                    // how much of the band does the implementation use? (information only)
+                    if let Some(p) = row.p.as_ref()
+                        && !next_to_one
+                        && row.x_lo <= X0_FIRST_ERROR_TERM_VALID
+                        && let Some(dl) = dist_log2(p, &cell.draws[d])
+                    {
+                        let exact_won = (BigInt::from(cell.draws[d].clone()) << (lot::P - 512)) < p.lo;
+                        if exact_won != won {
+                            stats.inband_disagreements += 1;
+                            let rel = dl - row.band_log2 as i64;
+                            stats.inband_max_rel = Some(stats.inband_max_rel.map_or(rel, |m| m.max(rel)));
+                        }
+                    }
+                }
+                Some(v) => {
+                    let exact_won = v == Verdict::Won;
+                    if exact_won {
+                        n_won += 1;
+                    } else {
+                        n_lost += 1;
+                    }
+                    st.decisive += 1;
+                    rep.nontrivial(&(phi.to_bits(), row.stake, cell.total, &evs[d][..]));
+                    let dl = row.p.as_ref().and_then(|p| dist_log2(p, &cell.draws[d])).unwrap_or(-600);
+                    if dl < -32 {
+                        n_near += 1;
+                    }
+                    if exact_won && sample_w.is_none_or(|s| cell.draws[s] < cell.draws[d]) {
+                        sample_w = Some(d);
+                    }
+                    if !exact_won && sample_l.is_none() {
+                        sample_l = Some(d);
+                    }
+                    if exact_won != won {
+                        if exact_won {
+                            st.wrong_lost += 1;
+                        } else {
+                            st.wrong_won += 1;
+                        }
+                        let key = match (exact_won, next_to_one) {
+                            (false, true) => K_NEAR_ONE,
+                            (false, false) => K_WON_LOST,
+                            (true, _) if row.x_lo > X0_FIRST_ERROR_TERM_VALID => K_TAYLOR,
+                            (true, _) => K_LOST_WON,
+                        };
+                        let p = row.p.as_ref().unwrap();
+                        let mut c = case_json(cell, r, d);
+                        c["exact_threshold_bracket"] = json!([iv_to_f64(&p.lo), iv_to_f64(&p.hi)]);
+                        c["x=-w*ln(1-phi_f)"] = json!(row.x_lo);
+                        c["log2_distance_from_threshold"] = json!(dl);
+                        c["band_log2"] = json!(row.band_log2);
+                        rep.violation(
+                            key,
+                            format!(
+                                "is_lottery_won says {} but draw/2^512 {} 1-(1-phi_f)^(stake/total) exactly (|difference| >= 2^{dl}, band 2^{}): {c}",
+                                if won { "WON" } else { "LOST" },
+                                if exact_won { "<" } else { ">=" },
+                                row.band_log2,
+                            ),
+                            c,
+                        );
+                    }
+                }
+            }
+        }
+        rep.add_extra("reference_too_close", n_close);
+        rep.add_extra("reference_won", n_won);
+        rep.add_extra("reference_lost", n_lost);
+        rep.add_extra("decisive_cases_within_2^-32_of_threshold", n_near);
+        stats.rows.push(st);
+        // evidence samples: the decisive draws closest to the threshold on either side
+        if (cell.total == 3 || cell.total == u64::MAX) && row.stake == cell.total / 3 && (phi == 0.2 || phi == 0.8) {
+            for s in [sample_w, sample_l].into_iter().flatten() {
+                let mut c = case_json(cell, r, s);
+                c["decision"] = json!(if is_won(dec[r][s]) { "won" } else { "lost" });
+                c["reference"] = json!(format!("{:?}", ver[r][s].unwrap()));
+                c["log2_distance_from_threshold"] = json!(row.p.as_ref().and_then(|p| dist_log2(p, &cell.draws[s])));
+                c["band_log2"] = json!(row.band_log2);
+                rep.sample(c);
+            }
+        }
+    }
+
+    let too_close = |r: usize, d: usize| matches!(ver[r][d], Some(Verdict::TooClose));
+    // --- draw-descending chains (same phi, stake, total): once lost at a draw, lost at every larger one.
+    for r in 0..cell.rows.len() {
+        rep.add_extra("draw_chains", 1);
+        let mut first_lost: Option<usize> = None; // any
+        let mut first_lost_decisive: Option<usize> = None; // not inside the band
+        for d in 0..nd {
+            if !is_won(dec[r][d]) {
+                first_lost.get_or_insert(d);
+                if !too_close(r, d) {
+                    first_lost_decisive.get_or_insert(d);
+                }
+            } else {
+                let witness = if too_close(r, d) { first_lost_decisive } else { first_lost };
+                if let Some(l) = witness {
+                    let mut c = case_json(cell, r, d);
+                    c["smaller_draw_hex_be"] = json!(hex_be(&cell.draws[l]));
+                    rep.violation(
+                        K_MONO_DRAW,
+                        format!("the lottery is won at a draw but lost at a SMALLER draw (same phi_f, stake, total): {c}"),
+                        c,
+                    );
+                    break;
+                }
+            }
+        }
+    }
+    // --- stake-ascending chains (same phi, total, draw): once won at a stake, won at every larger one.
+    for d in 0..nd {
+        rep.add_extra("stake_chains", 1);
+        let mut last_won: Option<usize> = None;
+        let mut last_won_decisive: Option<usize> = None;
+        for r in 0..cell.rows.len() {
+            if is_won(dec[r][d]) {
+                last_won = Some(r);
+                if !too_close(r, d) {
+                    last_won_decisive = Some(r);
+                }
+            } else {
+                let witness = if too_close(r, d) { last_won_decisive } else { last_won };
+                if let Some(w) = witness {
+                    let mut c = case_json(cell, r, d);
+                    c["smaller_stake"] = json!(cell.rows[w].stake.to_string());
+                    rep.violation(
+                        K_MONO_STAKE,
+                        format!("the lottery is lost at a stake but won at a SMALLER stake (same phi_f, total, draw): {c}"),
+                        c,
+                    );
+                    break;
+                }
+            }
+        }
+    }
+    (rep, stats)
+}
+
+// ---------------------------------------------------------------------------------------------
+// public path: signer vs verifier, index by index
+// ---------------------------------------------------------------------------------------------
+
+struct PubCase {
+    stakes: Vec<u64>,
+    phi: f64,
+    m: u64,
+    msg: Vec<u8>,
+}
+
+fn public_case(pc: &PubCase, ln2c: &Iv) -> Report {
+    let mut rep = Report::new("exploration", "");
+    let desc = json!({"kind": "public", "stakes": pc.stakes.iter().map(|s| s.to_string()).collect::<Vec<_>>(),
+        "phi_f": pc.phi, "phi_f_bits": format!("{:#018x}", pc.phi.to_bits()), "m": pc.m, "msg_hex": hex::encode(&pc.msg)});
+    let params = Parameters { m: pc.m, k: 1, phi_f: pc.phi };
+    let all = Parameters { m: pc.m, k: 1, phi_f: 1.0 };
+    let mut rng = ChaCha20Rng::from_seed([8u8; 32]);
+    let inits: Vec<Initializer> = pc.stakes.iter().map(|s| Initializer::new(params, *s, &mut rng)).collect();
+    let mut reg = KeyRegistration::initialize();
+    for i in &inits {
+        let e = RegistrationEntry::new(i.get_verification_key_proof_of_possession_for_concatenation(), i.stake).expect("entry");
+        reg.register_by_entry(&e).expect("register");
+    }
+    let closed = reg.close_registration(&params).expect("close");
+    let total = closed.total_stake;
+    let avk: AggregateVerificationKey<D> = AggregateVerificationKey::from(&closed);
+    let root: Vec<u8> = serde_json::to_value(avk.to_concatenation_aggregate_verification_key())
+        .ok()
+        .and_then(|v| v["mt_commitment"]["root"].as_array().map(|a| a.iter().map(|b| b.as_u64().unwrap_or(0) as u8).collect()))
+        .unwrap_or_default();
+    if root.len() != 32 {
+        rep.machinery_error(format!("cannot read the Merkle root out of the aggregate verification key ({} bytes)", root.len()));
+        return rep;
+    }
+    let mut msgp = pc.msg.clone();
+    msgp.extend_from_slice(&root);
+
+    for init in &inits {
+        let stake = init.stake;
+        let signer: Signer<D> = init.clone().try_create_signer(&closed).expect("signer");
+        // same key, same registration, phi_f = 1: yields the signer's sigma whatever the lottery says
+        let mut init_all = init.clone();
+        init_all.parameters = all;
+        let signer_all: Signer<D> = init_all.try_create_signer(&closed).expect("signer(all)");
+        let Ok(sig_all) = signer_all.create_single_signature(&pc.msg) else {
+            rep.machinery_error(format!("the phi_f=1 twin of a signer produced no signature: {desc}"));
+            continue;
+        };
+        let signed: Vec<u64> = match catch(|| signer.create_single_signature(&pc.msg)) {
+            Ok(Ok(s)) => {
+                if s.get_concatenation_signature_sigma().to_bytes() != sig_all.get_concatenation_signature_sigma().to_bytes() {
+                    rep.machinery_error(format!("sigma of the signer and of its phi_f=1 twin differ: {desc}"));
+                }
+                s.get_concatenation_signature_indices()
+            }
+            Ok(Err(_)) => vec![],
+            Err(_) => {
+                rep.add_extra("panics_observed", 1);
+                vec![]
+            }
+        };
+        let sigma = sig_all.get_concatenation_signature_sigma().to_bytes();
+        let pk = signer.get_bls_verification_key();
+        let p = lot::probability(stake, total, pc.phi, ln2c);
+        let x_lo = exponent_lower(stake, total, pc.phi, ln2c);
+        let band = if x_lo.is_finite() { band_log2(stake, total, x_lo) } else { BAND_LOG2 };
+        for index in 0..pc.m {
+            rep.eval();
+            let s_won = signed.contains(&index);
+            let mut one = sig_all.clone();
+            one.set_concatenation_signature_indices(&[index]);
+            let v_won = matches!(catch(|| one.verify(&params, &pk, &stake, &avk, &pc.msg)), Ok(Ok(())));
+            let mut c = desc.clone();
+            c["stake"] = json!(stake.to_string());
+            c["total"] = json!(total.to_string());
+            c["index"] = json!(index);
+            rep.outcome(if s_won { "public: index signed" } else { "public: index not signed" });
+            if s_won != v_won {
+                rep.violation(
+                    K_AGREE,
+                    format!(
+                        "signer {} index {index} but the verifier {} the same sigma for that index: {c}",
+                        if s_won { "signs" } else { "does not sign" },
+                        if v_won { "accepts" } else { "rejects" }
+                    ),
+                    c.clone(),
+                );
+            }
+            // the draw, recomputed independently
+            let ev = mc_ref::dense_mapping(&msgp, index, &sigma);
+            c["draw_hex_le"] = json!(hex::encode(ev));
+            let incl = call(pc.phi, ev, stake, total) == WON;
+            if incl != s_won {
+                rep.violation(
+                    K_PUBLIC_DRAW,
+                    format!(
+                        "Signer::create_single_signature {} index {index}, but is_lottery_won on Blake2b-512(\"map\"||msg||root||index_le||sigma) read little-endian says {}: {c}",
+                        if s_won { "signs" } else { "does not sign" },
+                        if incl { "won" } else { "lost" }
+                    ),
+                    c.clone(),
+                );
+            }
+            if stake == 0 && pc.phi == 1.0 {
+                rep.add_extra("excluded_contradictory_phi1_stake0", 1);
+                continue;
+            }
+            rep.nontrivial(&("public", pc.phi.to_bits(), &pc.stakes, stake, &pc.msg, index));
+            let next_to_one = pc.phi != 1.0 && (1.0 - pc.phi) < f64::EPSILON;
+            if stake == 0 {
+                if s_won || v_won {
+                    rep.violation(if next_to_one { K_NEAR_ONE } else { K_ZERO }, format!("zero stake wins index {index} on the public path: {c}"), c);
+                }
+                continue;
+            }
+            if pc.phi == 1.0 {
+                if !s_won || !v_won {
+                    rep.violation(K_ONE, format!("phi_f = 1 but index {index} is lost on the public path: {c}"), c);
+                }
+                continue;
+            }
+            match p.as_ref().map(|p| lot::decide_p(&ev, p, band)) {
+                Some(Verdict::TooClose) | None => rep.add_extra("reference_too_close", 1),
+                Some(v) => {
+                    let exact_won = v == Verdict::Won;
+                    rep.add_extra(if exact_won { "public_reference_won" } else { "public_reference_lost" }, 1);
+                    for (who, got) in [("signer", s_won), ("verifier", v_won)] {
+                        if got != exact_won {
+                            let key = match (exact_won, next_to_one) {
+                                (false, true) => K_NEAR_ONE,
+                                (false, false) => K_WON_LOST,
+                                (true, _) if x_lo > X0_FIRST_ERROR_TERM_VALID => K_TAYLOR,
+                                (true, _) => K_LOST_WON,
+                            };
+                            rep.violation(
+                                key,
+                                format!("public path: the {who} decides {} for index {index} but the draw is exactly {}: {c}",
+                                    if got { "WON" } else { "LOST" }, if exact_won { "below the threshold" } else { "not below the threshold" }),
+                                c.clone(),
+                            );
+                        }
+                    }
+                }
+            }
+        }
+    }
+    if rep.samples.is_empty() {
+        rep.sample(desc);
+    }
+    rep
+}
+
+fn public_cases(ctx: &Ctx) -> Vec<PubCase> {
+    let m = ctx.tier.pick(24u64, 64);
+    let mut stake_sets: Vec<Vec<u64>> = vec![
+        vec![1],
+        vec![0, 5],
+        vec![1, 1],
+        vec![1, 2, 3],
+        vec![1, 1000],
+        vec![15_000_000_000_000_000, 30_000_000_000_000_000],
+        vec![u64::MAX - 1, 1],
+    ];
+    if ctx.tier == mc_core::Tier::Thorough {
+        stake_sets.extend([vec![0, 0, 1], vec![2, 3, 7], vec![1, u64::MAX / 2, u64::MAX / 2], vec![1, 11]]);
+    }
+    let phis = [1e-6, 0.05, 0.2, 0.5, 0.8, 0.92, 0.95, 0.99, phi_next_to_one(), 1.0];
+    let msgs: Vec<Vec<u8>> = (0..ctx.tier.pick(2u8, 4)).map(|i| vec![i; 16]).collect();
+    let mut v = vec![];
+    for s in &stake_sets {
+        for &phi in &phis {
+            for msg in &msgs {
+                v.push(PubCase { stakes: s.clone(), phi, m, msg: msg.clone() });
+            }
+        }
+    }
+    v
+}
+
+// ---------------------------------------------------------------------------------------------
+
+fn parse_u64(v: &Value) -> Option<u64> {
+    v.as_str().and_then(|s| s.parse().ok()).or(v.as_u64())
+}
+
+fn phi_from(v: &Value) -> f64 {
+    v["phi_f_bits"]
+        .as_str()
+        .and_then(|s| u64::from_str_radix(s.trim_start_matches("0x"), 16).ok())
+        .map(f64::from_bits)
+        .or(v["phi_f"].as_f64())
+        .unwrap_or(0.2)
+}
+
+pub fn run(ctx: &Ctx) -> ! {
+    let b = bounds(ctx);
+    let thorough = ctx.tier == mc_core::Tier::Thorough;
+    let mut rep = Report::new(
+        "exploration",
+        "every (phi_f, total, stake, draw) of the lattice is decided by the working tree's is_lottery_won (source inclusion); \
+         for each (phi_f, total) all stakes are decided on one common draw set = {0, 1, 2^512-1} + uniform grid + for every stake the \
+         exact threshold bracket T and T -/+ j*2^s; a case is non-trivial when the reference verdict is decisive (draw outside the \
+         2^-44 band) or one of the unconditional clauses (zero stake, phi_f = 1) applies; distinct = distinct (phi_f, stake, total, draw); \
+         public-path cases (Signer::create_single_signature vs SingleSignature::verify, per index) are counted too",
+    );
+    rep.extra(
+        "lattice",
+        json!({
+            "phi_f": phis(thorough),
+            "totals": totals(b.dense_max).iter().map(|t| t.to_string()).collect::<Vec<_>>(),
+            "stakes": format!("0..=total for total <= {}, else {{0, 1, total/3, total/2, total-1, total}}", b.dense_max),
+            "threshold_offsets": format!("T -/+ j*2^s, j in 1..={}, s in {:?} (draws are 512-bit; the band is 2^468)", b.jmax, b.shifts),
+            "uniform_grid_points": b.grid,
+            "band": "2^-44 * min(1, 2*max(stake/total, x)) rounded up to a power of two, x = -(stake/total)*ln(1-phi_f)",
+        }),
+    );
+    rep.assume(
+        "numerically negligible band: cases with |draw/2^512 - (1-(1-phi_f)^(stake/total))| < 2^-44 * min(1, 2*max(w, x)) (w = stake/total, \
+         x = -w*ln(1-phi_f); i.e. the absolute band 2^-44 for a party with all the stake, narrower in proportion for smaller stakes) are not \
+         compared with the reference. Justification: the implementation takes c = ln(1-phi_f) in f64 and is exact afterwards, so its threshold \
+         is off by at most e^-x*w*(2^-53 + |c|*2^-52) <= 2^-52*(w/2 + min(x, 1/e)); the band is >= 256 times that",
+    );
+    rep.assume(
+        "phi_f = 1.0 with stake = 0 is contradictory in the property itself (always lost for zero stake / always won when phi_f is 1) and is \
+         excluded from the exactness and unconditional clauses (it stays in the monotonicity chains)",
+    );
+    rep.assume(
+        "the draw is the 64-byte Blake2b-512(\"map\"||msg||merkle_root||index_le||sigma) read as a little-endian integer (mechanism named by the property)",
+    );
+    rep.assume(
+        "reference = mc-ref::lottery: fixed-point interval arithmetic with 704 fractional bits and proven series remainders; phi_f is taken as the \
+         exact binary rational of the f64; only the default num-integer back end of eligibility.rs is compiled (rug cannot be built offline)",
+    );
+    rep.assume("a panic of is_lottery_won counts as 'lost' (counted in panics_observed)");
+    let ln2c = lot::ln2();
+
+    // ---- replay of one case
+    if let Some(path) = &ctx.replay {
+        let v = mc_core::load_replay(path);
+        if v["kind"] == "public" {
+            let pc = PubCase {
+                stakes: v["stakes"].as_array().map(|a| a.iter().filter_map(parse_u64).collect()).unwrap_or_default(),
+                phi: phi_from(&v),
+                m: v["m"].as_u64().unwrap_or(24),
+                msg: hex::decode(v["msg_hex"].as_str().unwrap_or("")).unwrap_or_default(),
+            };
+            rep.merge(public_case(&pc, &ln2c));
+        } else {
+            let phi = phi_from(&v);
+            let total = parse_u64(&v["total"]).unwrap_or(1);
+            let mut stakes = stakes_for(total, b.dense_max);
+            for k in ["stake", "smaller_stake"] {
+                if let Some(s) = parse_u64(&v[k]) {
+                    stakes.push(s);
+                }
+            }
+            stakes.sort();
+            stakes.dedup();
+            let mut extra = vec![];
+            for k in ["draw_hex_be", "smaller_draw_hex_be"] {
+                if let Some(d) = v[k].as_str().and_then(|s| BigUint::parse_bytes(s.as_bytes(), 16)) {
+                    extra.push(d);
+                }
+            }
+            let cell = build_cell(phi, total, &stakes, &extra, &b, &ln2c);
+            let dec: Vec<Vec<u8>> = par_map(&(0..cell.rows.len()).collect::<Vec<_>>(), ctx.threads(), |_, r| run_row(&cell, *r));
+            rep.merge(judge_cell(&cell, &dec).0);
+        }
+        rep.nontrivial(&0u8);
+        rep.nontrivial(&1u8);
+        if rep.samples.is_empty() {
+            rep.sample(v);
+        }
+        rep.finish(ctx);
+    }
+
+    // ---- phase 1: reference thresholds and draw sets, one cell per (phi_f, total)
+    let mut keys = vec![];
+    for total in totals(b.dense_max) {
+        for phi in phis(thorough) {
+            keys.push((phi, total));
+        }
+    }
+    let cells: Vec<Cell> =
+        par_map(&keys, ctx.threads(), |_, (phi, total)| build_cell(*phi, *total, &stakes_for(*total, b.dense_max), &[], &b, &ln2c));
+    // ---- phase 2: the real code, one work item per (cell, stake); most expensive first
+    let mut items: Vec<(usize, usize)> = vec![];
+    for (ci, c) in cells.iter().enumerate() {
+        for r in 0..c.rows.len() {
+            items.push((ci, r));
+        }
+    }
+    // order of execution only (results are stored by index): rows with a large exponent x need the
+    // most Taylor iterations on the biggest rationals, so they go first to keep the tail short;
+    // VERIF_SEED permutes the order instead
+    items.sort_by(|a, b| {
+        let x = |i: &(usize, usize)| {
+            let v = cells[i.0].rows[i.1].x_lo;
+            if v.is_finite() { v } else { -1.0 }
+        };
+        x(b).partial_cmp(&x(a)).unwrap_or(std::cmp::Ordering::Equal).then(a.cmp(b))
+    });
+    if ctx.seed != 0 {
+        items.sort_by_key(|(c, r)| mc_core::mix(ctx.seed, (*c as u64) << 16 | *r as u64));
+    }
+    let timing = std::env::var_os("VERIF_C08_TIMING").is_some(); // stderr diagnostics only
+    let rows: Vec<(Vec<u8>, f64)> = par_map(&items, ctx.threads(), |_, (ci, r)| {
+        let t = std::time::Instant::now();
+        let v = run_row(&cells[*ci], *r);
+        (v, if timing { t.elapsed().as_secs_f64() } else { 0.0 })
+    });
+    let mut dec: Vec<Vec<Vec<u8>>> = cells.iter().map(|c| vec![vec![]; c.rows.len()]).collect();
+    let mut cpu_by_phi: std::collections::BTreeMap<String, f64> = Default::default();
+    for ((ci, r), (row, secs)) in items.iter().zip(rows) {
+        dec[*ci][*r] = row;
+        *cpu_by_phi.entry(format!("{:e}", cells[*ci].phi)).or_default() += secs;
+    }
+    if timing {
+        eprintln!("[C08] cpu seconds in is_lottery_won by phi_f: {cpu_by_phi:?}");
+    }
+    // ---- phase 3: the oracle
+    let idx: Vec<usize> = (0..cells.len()).collect();
+    let parts = par_map(&idx, ctx.threads(), |_, ci| judge_cell(&cells[*ci], &dec[*ci]));
+    let mut inband = (0u64, None::<i64>);
+    // (largest x of a row that was decided exactly everywhere, smallest x of a row with a wrongly lost draw)
+    let (mut x_clean_max, mut x_wrong_min) = (0f64, f64::INFINITY);
+    let mut wrong_by_phi: std::collections::BTreeMap<String, (u64, u64, u64)> = Default::default();
+    for (p, st) in parts {
+        rep.merge(p);
+        inband.0 += st.inband_disagreements;
+        inband.1 = match (inband.1, st.inband_max_rel) {
+            (Some(a), Some(b)) => Some(a.max(b)),
+            (a, b) => a.or(b),
+        };
+        for r in st.rows {
+            let next_to_one = r.phi != 1.0 && (1.0 - r.phi) < f64::EPSILON;
+            if r.x_lo.is_finite() && r.decisive > 0 && !next_to_one {
+                if r.wrong_lost > 0 {
+                    x_wrong_min = x_wrong_min.min(r.x_lo);
+                } else {
+                    x_clean_max = x_clean_max.max(r.x_lo);
+                }
+            }
+            let e = wrong_by_phi.entry(format!("{:e}", r.phi)).or_default();
+            e.0 += r.decisive;
+            e.1 += r.wrong_lost;
+            e.2 += r.wrong_won;
+        }
+    }
+    rep.extra(
+        "per_phi_f(decisive,wrongly_lost,wrongly_won)",
+        json!(wrong_by_phi.iter().map(|(k, v)| (k.clone(), json!([v.0, v.1, v.2]))).collect::<serde_json::Map<_, _>>()),
+    );
+    rep.extra(
+        "x=-w*ln(1-phi_f)",
+        json!({"largest_x_of_a_row_with_no_wrong_decision": x_clean_max,
+               "smallest_x_of_a_row_with_a_wrongly_lost_draw": if x_wrong_min.is_finite() { json!(x_wrong_min) } else { Value::Null }}),
+    );
+    rep.extra(
+        "in_band_use",
+        json!({"draws_inside_the_band_decided_against_the_exact_sign": inband.0,
+               "largest_log2(distance/band)_among_them": inband.1,
+               "note": "rows with x above 2.6556746947 and phi_f = 1-2^-53 are left out of this tally"}),
+    );
+    rep.extra("included_source_evaluations", json!(rep.evaluations));
+    rep.extra("cells_phi_total", json!(cells.len()));
+    rep.extra("largest_common_draw_set", json!(cells.iter().map(|c| c.draws.len()).max().unwrap_or(0)));
+
+    // ---- public path
+    let pcs = public_cases(ctx);
+    let parts = par_map(&pcs, ctx.threads(), |_, pc| public_case(pc, &ln2c));
+    let before = rep.evaluations;
+    for p in parts {
+        rep.merge(p);
+    }
+    rep.extra("public_path_index_decisions", json!(rep.evaluations - before));
+    rep.extra("public_path_configurations", json!(pcs.len()));
+    rep.finish(ctx)
 }
